@@ -28,7 +28,7 @@ def build(ctx):
                 objs[f] = o
             olist.append(o)
         ctx.cc([os.path.join(vlib.HARNESS, "drv_c07.c")] + olist, ctx.path("drv_c07" + variant),
-               flags=["-Wl,--wrap=copy_file_range,--wrap=zix_default_allocator"])
+               flags=["-Wl,--wrap=copy_file_range,--wrap=zix_default_allocator,--wrap=malloc,--wrap=calloc,--wrap=realloc,--wrap=free,--wrap=posix_memalign"])
     ctx.fault_objs = objs
     return objs
 
@@ -119,6 +119,22 @@ def base_cases(ctx, seed, tier):
     for n in (60, 127, 128, 129, 255, 256, 257, 258, 511, 512, 513, 1023, 1024, 1025):
         out.append(("fs", "mkdirs %d" % n))
     out.append(("fs", "cwdlong"))
+    # the default allocator itself (src/allocator.c): entry -> libc call, through the NULL-allocator wrappers
+    for _ in range(12 if not big else 60):
+        reqs, nblk, live = [], 0, []
+        for _ in range(r.randrange(2, 12)):
+            x = r.random()
+            if x < 0.25:
+                reqs.append("m%d" % r.choice([0, 1, 8, 24, 100, 4096])); live.append((nblk, "p")); nblk += 1
+            elif x < 0.4:
+                reqs.append("c%dx%d" % (r.choice([0, 1, 3, 16]), r.choice([0, 1, 8, 40]))); live.append((nblk, "p")); nblk += 1
+            elif x < 0.6:
+                al = r.choice([8, 16, 64, 4096]); reqs.append("a%d:%d" % (al, al * r.choice([0, 1, 2, 5]))); live.append((nblk, "a")); nblk += 1
+            elif x < 0.75 and [b for b in live if b[1] == "p"]:
+                b = r.choice([b for b in live if b[1] == "p"]); reqs.append("r%d:%d" % (b[0], r.choice([1, 8, 64, 1000])))
+            elif live:
+                b = r.choice(live); live.remove(b); reqs.append(("f%d" if b[1] == "p" else "F%d") % b[0])
+        out.append(("default", " ".join(reqs)))
     for op in ("mkdirs", "canon", "cwd", "tmpdir", "mktmp", "copy 5000", "copyx 0", "copyx 511", "copyx 513", "copyx 70000",
                "equals 0", "equals 4095", "equals 4096", "equals 9000", "equals 9000 8999", "equals 9000 0",
                "equals 600 512"):
@@ -193,9 +209,23 @@ def judge(comp, fault, args, line, nofault_line, oracle):
         probs.append("allocator protocol error: " + (re.search(r'first_error="([^"]*)"', line) or [None, "?"])[1])
     if spurious:
         probs.append("NO_MEM reported although no request was refused")
-    if defalloc and fault != "@D":
+    if defalloc and fault != "@D" and comp != "default":
         probs.append("default allocator used although the caller supplied one (%d calls)" % defalloc)
     body = line.split(" ; ")[0]
+    if comp == "default":
+        # L1: what a caller can observe (alignment, zeroed calloc memory, realloc keeps contents); the exact libc
+        # calls are compared with the model as L2 (model_trace_cmd)
+        m = re.search(r"sem=(\d+)", body)
+        sem = int(m.group(1)) if m else -1
+        if sem & 1:
+            probs.append("default aligned_alloc returned a misaligned block")
+        if sem & 2:
+            probs.append("default calloc returned memory that is not zero")
+        if sem & 4:
+            probs.append("default realloc lost the contents")
+        if sem < 0:
+            probs.append("malformed line")
+        return probs
     if comp in ("btree", "btree64", "hash", "tree"):
         if body.startswith("new:NULL"):
             if not failed and fault != "@D":
@@ -255,6 +285,8 @@ def model_trace_cmd(comp, fault, args, line, nofault_line):
     tl = tail(line)
     if tl is None or fault == "@D":
         return None
+    if comp == "default":
+        return "D " + args
     bits = oracle_bits(fault, tl[1])
     if comp == "ring":
         return "G ring " + bits
